@@ -30,6 +30,8 @@ pub fn try_get_amount_delta_a(
     let sqrt_price_diff = sqrt_price_upper - sqrt_price_lower;
     let numerator: U256 = <U256>::from(liquidity)
         .checked_mul(sqrt_price_diff.into())
+        // `checked_shl` only fails for shift amounts >= 256: reject products whose top 64 bits would be shifted out
+        .filter(|product| product.leading_zeros() >= 64)
         .ok_or(ARITHMETIC_OVERFLOW)?
         .checked_shl(64)
         .ok_or(ARITHMETIC_OVERFLOW)?;
@@ -111,6 +113,8 @@ pub fn try_get_next_sqrt_price_from_a(
         .ok_or(ARITHMETIC_OVERFLOW)?;
     let numerator = <U256>::from(current_liquidity)
         .checked_mul(current_sqrt_price.into())
+        // `checked_shl` only fails for shift amounts >= 256: reject products whose top 64 bits would be shifted out
+        .filter(|product| product.leading_zeros() >= 64)
         .ok_or(ARITHMETIC_OVERFLOW)?
         .checked_shl(64)
         .ok_or(ARITHMETIC_OVERFLOW)?;
